@@ -1293,6 +1293,13 @@ def _safe_getattr(obj, a):
         return MISSING
 
 
+def _safe_call(f):
+    try:
+        return f()
+    except Exception as e:  # noqa: BLE001
+        return f"<raised {type(e).__name__}>"
+
+
 def snapshot(W, nd):
     M, obj = nd.M, nd.obj
     s = {}
@@ -1307,6 +1314,11 @@ def snapshot(W, nd):
     if M.trunc_size is not None:
         s["trunc"] = observe_trunc(W, nd, s)
     s["nu"] = [nu_obs(obj, p["hash"]) for p in build_probes(M, W.seed)]
+    if M.is_unixdis:
+        # a value disabled under ANOTHER marker (by the parent, the global hasher, a sibling) with its original embedded:
+        # re-disabling it through this hasher stamps this hasher's marker
+        orig = "$1$abcdefgh$G//4keteveJp0qb8z2DxG/"
+        s["redisable"] = [(m, _safe_call(lambda m=m: obj.disable(m + orig))) for m in ("!", "*")]
     return s
 
 
@@ -1441,6 +1453,12 @@ def compare(W, nd, s):
                         ("parallelism", "par"), ("algs", "algs"), ("marker", "marker")):
             if fld in m and mf in M.fields and not same(jval(N.get(mf)), jval(m[fld])):
                 out.append(("ident" if fld == "ident" else "other", f"made:{fld}", f"a new hash carries {fld}={m[fld]!r}, configured {N.get(mf)!r}"))
+    if M.is_unixdis and "marker" in M.fields:
+        orig = "$1$abcdefgh$G//4keteveJp0qb8z2DxG/"
+        for m0, got in s.get("redisable", ()):
+            want = str(N.get("marker")) + orig
+            if got != want:
+                out.append(("other", "made:marker:redisable", f"disable({m0 + orig!r}) = {got!r}; this hasher's marker is {N.get('marker')!r} (expected {want!r})"))
     if M.has_salt and len(salts) == 2 and N.get("pin") is None:
         big = M.cisco7 or (N.get("ssize") or 0) > 0
         if big and salts[0] == salts[1]:
